@@ -623,6 +623,11 @@ void ExpressionBuilder::expr_dot(const char* id)
         }
     } else if (type.is(PROCESS_VAR)) {
         symbol_t uid;
+        // a process variable that is not a plain identifier (e.g. what is left of an erroneous
+        // quantifier over an unknown dynamic template) has no symbol to look up
+        if (expr.get_symbol() == symbol_t{}) {
+            throw UnknownIdentifierError(id);
+        }
         // temporarily set the frame to that of its associated template
         if (dynamicFrames.find(expr.get_symbol().get_name()) == dynamicFrames.end()) {
             throw UnknownIdentifierError(expr.get_symbol().get_name());
